@@ -165,6 +165,23 @@ func (e *Ev) evGhostCall(x *ast.CallExpr) Val {
 		quantSeq++
 		j := fmt.Sprintf("j!%d", quantSeq)
 		return VBool{fmt.Sprintf("(forall ((%s Int)) (=> (and (<= 0 %s) (< %s %s)) (= (select %s (+ %s %s %s)) (select %s (+ %s %s)))))", j, j, j, p.L, s.B, s.O, k, j, p.B, p.O, j)}
+	case "inset":
+		// inset(c, chars): the byte c occurs in chars
+		c := e.intOf(arg(0), x)
+		cs, ok := arg(1).(VStr)
+		if !ok {
+			e.unsupp(x, "inset needs a string")
+		}
+		if cs.Lit != nil {
+			var ds []Term
+			for i := 0; i < len(*cs.Lit); i++ {
+				ds = append(ds, sEq(c, fmt.Sprintf("%d", (*cs.Lit)[i])))
+			}
+			return VBool{sOr(ds...)}
+		}
+		quantSeq++
+		j := fmt.Sprintf("j!%d", quantSeq)
+		return VBool{fmt.Sprintf("(exists ((%s Int)) (and (<= 0 %s) (< %s %s) (= (select %s (+ %s %s)) %s)))", j, j, j, cs.L, cs.B, cs.O, j, c)}
 	case "isnil":
 		switch a := arg(0).(type) {
 		case VErr:
